@@ -7,6 +7,8 @@ mod util;
 mod valueterm;
 #[cfg(feature = "fa")]
 mod valueconv;
+#[cfg(feature = "fb")]
+mod valueeq;
 mod lexical;
 mod literal;
 mod ident;
@@ -71,6 +73,8 @@ fn dispatch(t: &[&str]) -> String {
         }
         #[cfg(feature = "fa")]
         "from" | "null" | "try" | "rt" | "rtx" | "asnull" | "dummy" | "deq" | "tupinto" | "tupfrom" | "tup" => valueconv::run(t),
+        #[cfg(feature = "fb")]
+        "cmp" | "hstream" | "tcmp" | "tstream" | "hset" | "jtext" => valueeq::run(t),
         other => format!("UNKNOWN-OP {}", other),
     }
 }
